@@ -83,3 +83,28 @@ def classify_exc(e):
     import yaml
     import yatiml
     return isinstance(e, (yatiml.RecognitionError, yaml.YAMLError))
+
+
+def call_cost(thunk):
+    """Deterministic cost proxy: number of Python function calls thunk() makes.
+
+    Used only to scale how many schedules/faults are enumerated for a case, so
+    that a pathologically expensive (class model, document) pair cannot eat the
+    budget; never influences an oracle.
+    """
+    import sys
+    n = [0]
+
+    def prof(frame, event, arg):
+        if event == 'call':
+            n[0] += 1
+    old = sys.getprofile()
+    sys.setprofile(prof)
+    try:
+        try:
+            thunk()
+        except Exception:
+            pass
+    finally:
+        sys.setprofile(old)
+    return n[0]
